@@ -21,6 +21,8 @@ type Attr struct {
 	Val   []string         `json:"val"`
 	Pm    []string         `json:"pm"`
 	Nest  string           `json:"nest"`
+	// Ty: the attribute type by the documented table (README "type mapping"; nil for nested objects and custom types)
+	Ty    interface{}      `json:"ty"`
 	Attrs map[string]*Attr `json:"attrs"`
 	// Injected / placeholder attributes have rules of their own
 	Kind string `json:"kind"`
@@ -151,6 +153,9 @@ func (w *walker) message(m *desc.Message, path string, depth int) map[string]*At
 				custom = true
 			}
 		}
+		if !custom && f.Type != "message" {
+			a.Ty = w.tableType(f)
+		}
 		if custom {
 			a.Kind = "custom"
 		} else if f.Type == "message" {
@@ -202,4 +207,37 @@ func Schemas(c *desc.Case, roots []string) map[string]map[string]*Attr {
 		out[r] = t
 	}
 	return out
+}
+
+// tableType is the documented type table: integers and enums -> Int64, float / double -> Float64, bool -> Bool, string and
+// bytes -> String, time and duration -> the configured types (the configured constructor when there is one, else the bare type
+// literal), repeated -> List of the element type, string-keyed map -> Map of the element type.
+func (w *walker) tableType(f *desc.Field) interface{} {
+	var elem interface{}
+	switch {
+	case f.Type == "timestamp":
+		elem = "Time{}"
+		if w.cfg.TimeType != nil && w.cfg.TimeType.TypeConstructor != "" {
+			elem = "Time"
+		}
+	case f.Type == "duration" || (w.cfg.DurationCustomType != "" && f.CastType == w.cfg.DurationCustomType) || f.StdDuration:
+		elem = "Duration"
+	case f.Type == "enum":
+		elem = "Int64"
+	case f.Type == "double" || f.Type == "float":
+		elem = "Float64"
+	case f.Type == "bool":
+		elem = "Bool"
+	case f.Type == "string" || f.Type == "bytes":
+		elem = "String"
+	default:
+		elem = "Int64"
+	}
+	switch f.Card {
+	case "repeated":
+		return map[string]interface{}{"list": elem}
+	case "map":
+		return map[string]interface{}{"map": elem}
+	}
+	return elem
 }
